@@ -103,7 +103,7 @@ static std::string tmpdir;
 
 static void body_tramp(void*) { H->run(kvptrs.data(), (int)kvptrs.size()); }
 
-static const char* opt_names[MC_OPT_COUNT] = {"timeouts", "timeout_race", "wakepick_cost", "spurious", "casfail", "spin_dev", "wm", "free_switch_cost", "track_points"};
+static const char* opt_names[MC_OPT_COUNT] = {"timeouts", "timeout_race", "wakepick_cost", "spurious", "casfail", "spin_dev", "wm", "free_switch_cost", "track_points", "spin_own"};
 
 static std::string json_escape(const std::string& s) {
   std::string o;
